@@ -962,6 +962,59 @@ func (g *Gen) multiStmt() Stmt {
 }
 
 func (g *Gen) callStmt() Stmt {
+	if g.chance(1, 6) {
+		// the call sits inside a template string that is itself only an expression statement: its
+		// interpolated expressions are still evaluated, with their side effects and failures
+		inner := g.templEffectCall()
+		g.feat("template-stmt-with-effects")
+		parts := []TemplPart{{Text: "t "}, {X: inner}}
+		if g.chance(1, 2) {
+			parts = append(parts, TemplPart{Text: " and "}, TemplPart{X: g.templExpr(tInt, 1)})
+		}
+		return &ExprStmt{X: &TemplateLit{Parts: parts}}
+	}
+	return g.callStmtPlain()
+}
+
+// templEffectCall: a call with a visible effect whose text is legal inside a template string (no braces,
+// no quotes that would need escaping): append to a list variable, a finished user function, or print.
+func (g *Gen) templEffectCall() Expr {
+	arg := func(t T) Expr {
+		switch t {
+		case tStr:
+			return g.templExpr(tStr, 1)
+		case tListInt:
+			return &ListLit{Items: []Expr{g.templExpr(tInt, 1), g.templExpr(tInt, 0)}}
+		case tFloat:
+			return &FloatLit{V: float64(g.pick(9)) + 0.5}
+		}
+		return g.templExpr(tInt, 1)
+	}
+	switch g.pick(3) {
+	case 0:
+		if v := g.visible(func(v *gvar) bool { return v.typ == tListInt && !v.ro }); len(v) > 0 {
+			return &MethodCall{X: &Ident{Name: v[g.pick(len(v))].name}, Name: "append", Args: []Expr{arg(tInt)}}
+		}
+	case 1:
+		var ok []*gvar
+		for _, f := range g.visible(func(v *gvar) bool { return v.typ == tFunc && v.fn != nil && !v.fn.recursive }) {
+			if !g.generating[f.name] {
+				ok = append(ok, f)
+			}
+		}
+		if len(ok) > 0 {
+			f := ok[g.pick(len(ok))]
+			var args []Expr
+			for i := 0; i < f.fn.nreq; i++ {
+				args = append(args, arg(f.fn.params[i]))
+			}
+			return &Call{F: &Ident{Name: f.name}, Args: args}
+		}
+	}
+	return &Call{F: &Ident{Name: "print"}, Args: []Expr{arg(tInt), arg(tStr)}}
+}
+
+func (g *Gen) callStmtPlain() Stmt {
 	switch g.pick(4) {
 	case 0:
 		if v := g.visible(func(v *gvar) bool { return v.typ == tListInt && !v.ro }); len(v) > 0 {
